@@ -581,6 +581,29 @@ def family_shapes():
             "start": "A",
         },
     )
+    # S19 a dependent refinement whose dependency name also exists as a field of a nested concrete-typed sibling
+    out.append(
+        {
+            "name": "S19:dependent-shadow",
+            "abstract": [["A", None, "ABC"]],
+            "prods": [
+                ["W", None, None, [["a", IR01], ["k", IR01]]],
+                ["L", "A", None, [["v", IR01]]],
+                [
+                    "C",
+                    "A",
+                    None,
+                    [
+                        ["a", IR01],
+                        ["w", ref("W")],
+                        ["n", ["ann", "str", ["Dep", "a", ["VarRangeOf", [["p"], ["q"]]]]]],
+                        ["k", ["ann", "int", ["Dep", "a", ["IntRangeFrom", 1]]]],
+                    ],
+                ],
+            ],
+            "start": "A",
+        },
+    )
     # S16 union of two abstract types of different minimum depth
     out.append(
         {
@@ -650,7 +673,7 @@ def finite_family(tier: str):
     fa = finite_alphabet()
     out = list(family_one_abstract(fa, 1 if tier == "quick" else 2, "F1"))
     out += [s for s in family_shapes() if s["name"].split(":")[0] in
-            ("S1", "S2", "S3", "S4", "S5", "S6", "S7", "S8", "S9", "S10", "S12", "S13", "S14", "S15", "S16", "S17", "S18")]
+            ("S1", "S2", "S3", "S4", "S5", "S6", "S7", "S8", "S9", "S10", "S12", "S13", "S14", "S15", "S16", "S17", "S18", "S19")]
     out += list(family_two_abstract(finite_alphabet, "F2"))
     out += list(family_nested(finite_alphabet, "F3"))
     return out
